@@ -3,6 +3,7 @@ r"""Wrapping array into intervals.
 Contains IntervalArray structure wrapping array and allowing to access it by providing
 interval value.
 """
+from operator import index
 from typing import Callable, Union, List
 
 import numpy as np
@@ -51,7 +52,7 @@ class IntervalArray:
 
         """
         self.a = np.asarray(a)
-        self.n = n
+        self.n = index(n)  # interval arithmetic with NumPy unsigned integers promotes to float
 
     def __getitem__(self, item):
         r"""Access the element in interval array by index `item`.
